@@ -1297,6 +1297,8 @@ async fn settle() {
 
 struct PureWorld {
     probe: Option<ProxyProbe>,
+    /// wave 2: the fields of the node messages built by the real `handle_serialized`
+    fprobe: Option<ractor_cluster::remote_actor_verif_fields::FieldProbe>,
     ports: Vec<u64>,
     /// a real NodeSession + state driven handler by handler (allow-list / Spawn / Terminate announcements)
     adv: Option<ractor_cluster::node::node_session::verif_advert::AdvertProbe>,
@@ -1404,9 +1406,46 @@ impl PureWorld {
                     p.shutdown();
                 }
                 self.probe = Some(ProxyProbe::new().await);
+                if let Some(fp) = self.fprobe.take() {
+                    fp.shutdown();
+                }
                 self.ports.clear();
                 st.bump("proxy");
                 "ok".into()
+            }
+            // wave 2: `fcast <variant> <args> <meta|->` / `fcall <variant> <args> <meta|-> <timeout ms|->`
+            ["fcast", variant, args, meta] | ["fcall", variant, args, meta, _] => {
+                st.bump("p_fields");
+                if self.fprobe.is_none() {
+                    self.fprobe = Some(ractor_cluster::remote_actor_verif_fields::FieldProbe::new().await);
+                }
+                let fp = self.fprobe.as_mut().unwrap();
+                let md = if *meta == "-" { None } else { Some(be(meta.parse().unwrap())) };
+                if w[0] == "fcast" {
+                    fp.cast(format!("V{variant}"), be(args.parse().unwrap()), md).await;
+                } else {
+                    let tmo = if w[4] == "-" { None } else { Some(w[4].parse().unwrap()) };
+                    fp.call(format!("V{variant}"), be(args.parse().unwrap()), md, tmo).await;
+                }
+                settle().await;
+                let pid = fp.pid();
+                let frames: Vec<String> = fp
+                    .take()
+                    .iter()
+                    .map(|(is_call, to, tag, what, variant, metadata, tmo)| {
+                        format!(
+                            "call={} to={} tag={} what={} variant={} meta={} tmo={}",
+                            *is_call as u8,
+                            (*to == pid) as u8,
+                            tag,
+                            un(what),
+                            variant,
+                            metadata.as_ref().map(|m| un(m).to_string()).unwrap_or("-".into()),
+                            tmo.map(|t| t.to_string()).unwrap_or("-".into())
+                        )
+                    })
+                    .collect();
+                if frames.is_empty() { "none".into() } else { frames.join(";") }
             }
             _ if self.probe.is_none() => "no-proxy".into(),
             ["call", port, payload] => {
@@ -1516,6 +1555,15 @@ fn gen_pure(rng: &mut Rng) -> Vec<String> {
                     ops.push(format!("abandon {}", open.remove(i)));
                 }
             }
+        } else if k < call_w + abandon_w + 3 {
+            // wave 2: the fields of a cast / call with arbitrary variant, metadata, timeout
+            let meta = if rng.chance(1, 2) { "-".to_string() } else { (1 + rng.below(1000)).to_string() };
+            if rng.chance(1, 2) {
+                ops.push(format!("fcast {} {} {meta}", rng.below(5), rng.below(100000)));
+            } else {
+                let tmo = if rng.chance(1, 3) { "-".to_string() } else { rng.below(100000).to_string() };
+                ops.push(format!("fcall {} {} {meta} {tmo}", rng.below(5), rng.below(100000)));
+            }
         } else if k < call_w + abandon_w + 8 {
             ops.push(format!("cast {}", rng.below(50)));
         } else if k < 98 || killed {
@@ -1560,7 +1608,7 @@ async fn main() {
     let mut rng = Rng::new(seed);
     let mut log = Log::create(std::path::Path::new(&out)).unwrap();
     let mut st = Stats::default();
-    let mut world = PureWorld { probe: None, ports: vec![], adv: None, adv_pend: vec![], adv_n: 0 };
+    let mut world = PureWorld { probe: None, fprobe: None, ports: vec![], adv: None, adv_pend: vec![], adv_n: 0 };
 
     let tcp = args.u64("tcp", 0) == 1;
     TCP.store(tcp, std::sync::atomic::Ordering::Relaxed);
